@@ -1,5 +1,7 @@
 package zzverif
 
+import "verifsim/simrt"
+
 func hasSuffix(s, suf string) bool { return len(s) >= len(suf) && s[len(s)-len(suf):] == suf }
 func hasPrefix(s, pre string) bool { return len(s) >= len(pre) && s[:len(pre)] == pre }
 
@@ -93,6 +95,15 @@ func init() {
 			},
 		},
 	}}
+	// refresh deadlines without an expiry policy (different node layouts: br, brw, bsr)
+	Props["C12"].Engines = append(Props["C12"].Engines, &seqEngine{
+		profile: Profile{Prop: "C12", Executor: []string{"sync"}, NoExp: true, ForceRef: true,
+			OpW: w(defaultOpW, map[string]int{"setrefreshable": 8, "advance": 18, "load": 12, "refresh": 5, "getentry": 5})},
+		nontrivial: func(o *SeqOutcome) bool {
+			l, _ := probeSum(o, "op:", "@live")
+			return l >= 5
+		},
+	})
 	Props["C13"] = &PropSpec{ID: "C13", Engines: []Engine{&seqEngine{
 		profile: Profile{Prop: "C13", Executor: []string{"sync"}, ForceExp: true, BigTTL: true,
 			OpW: map[string]int{"set": 30, "setifabsent": 5, "get": 8, "compute": 4, "invalidate": 5, "setexpires": 6, "cleanup": 14, "advance": 22, "esize": 4,
@@ -102,6 +113,81 @@ func init() {
 			return o.Probes["sweep-checks"] > 0 && o.Probes["auto-expiration"] > 0
 		},
 	}}}
+	// queued executor: maintenance lags behind, the one-stripe read buffer overflows and drops read
+	// events, so a deadline extended by a read may have to be repaired by the sweep itself
+	Props["C13"].Engines = append(Props["C13"].Engines, &seqEngine{
+		profile: Profile{Prop: "C13", Executor: []string{"queued"}, ForceExp: true, BigTTL: true, NoRef: true, SmallReadBuf: true, ReadBursts: true, WheelBias: true, Keys: [2]int{2, 5},
+			OpW: map[string]int{"set": 18, "get": 40, "getentry": 4, "invalidate": 3, "cleanup": 12, "advance": 24, "esize": 3, "runexec": 5,
+				"setifabsent": 2, "compute": 2, "getquiet": 1, "computeifabsent": 1, "computeifpresent": 1, "invalidateall": 0, "setexpires": 0, "setrefreshable": 0, "load": 0, "bulkget": 0, "refresh": 0, "bulkrefresh": 0,
+				"all": 1, "keys": 0, "values": 0, "hottest": 0, "coldest": 0, "setmax": 0, "getmax": 0, "wsize": 0, "stats": 0}},
+		nontrivial: func(o *SeqOutcome) bool {
+			return o.Probes["sweep-checks"] > 0 && o.Probes["auto-expiration"] > 0
+		},
+	})
+	// scenario skeleton: entries scheduled in a fine wheel level, a burst of reads that overflows the
+	// read buffer while the executor is held, reads whose events are dropped, then CleanUp calls
+	// placed between the old and the new deadlines and shortly after the new ones
+	Props["C13"].Engines = append(Props["C13"].Engines, &seqEngine{
+		profile: Profile{Prop: "C13", Executor: []string{"queued"}, ForceExp: true, BigTTL: true, NoRef: true, SmallReadBuf: true, WheelBias: true, Keys: [2]int{2, 6}},
+		script: func(r *simrt.Rng, cfg *Cfg) []Op {
+			var ops []Op
+			id := 32
+			val := func() int { id += 32; return id * cfg.W() }
+			tick := int64(1) << 30
+			n := 1 + r.Intn(cfg.Keys)
+			for k := 0; k < n; k++ {
+				ops = append(ops, Op{Kind: "set", K: k, V: val()})
+				if r.Intn(3) == 0 {
+					ops = append(ops, Op{Kind: "advance", D: int64(r.Intn(4)) * tick / 2})
+				}
+			}
+			if r.Intn(4) != 0 {
+				ops = append(ops, Op{Kind: "cleanup"})
+			}
+			rounds := 1 + r.Intn(3)
+			for round := 0; round < rounds; round++ {
+				filler := r.Intn(n)
+				for i := 0; i < 16+r.Intn(30); i++ {
+					ops = append(ops, Op{Kind: "get", K: filler})
+				}
+				ops = append(ops, Op{Kind: "advance", D: int64(r.Intn(3 * int(tick)))})
+				for i := 0; i < 1+r.Intn(3); i++ {
+					ops = append(ops, Op{Kind: "get", K: r.Intn(n)})
+				}
+				if r.Intn(3) == 0 {
+					ops = append(ops, Op{Kind: "runexec", D: -1})
+				}
+				// step towards / past deadlines with CleanUp in between
+				for i := 0; i < 1+r.Intn(4); i++ {
+					var d int64
+					switch r.Intn(4) {
+					case 0:
+						d = int64(1+r.Intn(70)) * tick
+					case 1:
+						d = tbl(cfg.ExpTbl[0], 0, 0) + int64(r.Intn(5))*tick
+					case 2:
+						d = tbl(cfg.ExpTbl[2], 0, 0) - int64(r.Intn(20))*tick
+					default:
+						d = genDuration(r, &Profile{BigTTL: true})
+					}
+					if cfg.Expiry != "custom" {
+						d = cfg.ExpD + int64(r.Intn(40)-20)*tick
+					}
+					if d <= 0 {
+						d = tick
+					}
+					ops = append(ops, Op{Kind: "advance", D: d}, Op{Kind: "cleanup"})
+					if r.Intn(2) == 0 {
+						ops = append(ops, Op{Kind: "advance", D: int64(2+r.Intn(30)) * tick}, Op{Kind: "cleanup"}, Op{Kind: "esize"})
+					}
+				}
+			}
+			return ops
+		},
+		nontrivial: func(o *SeqOutcome) bool {
+			return o.Probes["sweep-checks"] > 0 && o.Probes["auto-expiration"] > 0
+		},
+	})
 	Props["C19"] = &PropSpec{ID: "C19", Engines: []Engine{
 		&seqEngine{
 			profile:  Profile{Prop: "C19", Executor: []string{"sync"}, MinOps: 3, MaxOps: 80, OpW: w(defaultOpW, map[string]int{"set": 30, "advance": 8})},
